@@ -306,6 +306,13 @@ def evaluate(ctx, batch, real_cmd, model_cmd, env, problems, reasons):
         else:   # fl / st : pure model-vs-platform comparisons (FloatLaws L1-L3, IStream)
             ctx.count(1, key=line)
             ctx.hist("kind", meta[0])
+            if len(meta) > 1 and meta[1] == "g15":
+                # law L2 (G15Shape in Props/C09.lean) on the platform's own output
+                import re as _re
+                txt = unhx(r.split()[1]).decode("latin-1") if len(r.split()) > 1 else ""
+                if not _re.fullmatch(r"-?[0-9]+(\.[0-9]+)?(E[+-][0-9]+)?", txt):
+                    problems.append(("correspondence", line, f"FloatLaws L2: %.15G printed {txt!r}, not of the shape G15Shape", None))
+                    nprob += 1
             if r != m:
                 problems.append(("correspondence", line, f"platform {r!r} vs model {m!r}", None))
                 nprob += 1
@@ -420,14 +427,14 @@ def literal_batches(ctx, quick):
     # FloatLaws: %.15G and strtod of the platform against the executable FloatOps instance
     b = Batch("floatlaws-g15")
     for x in real_grid(3 if quick else 1):
-        b.raw(f"fl g15 {dbl_bits(x)}", ("fl",))
+        b.raw(f"fl g15 {dbl_bits(x)}", ("fl", "g15"))
     for k in range(-1074, 1024, 11 if quick else 1):
-        b.raw(f"fl g15 {dbl_bits(2.0 ** k)}", ("fl",))
+        b.raw(f"fl g15 {dbl_bits(2.0 ** k)}", ("fl", "g15"))
     for _ in range(2000 if quick else 100000):
         bits = "%016X" % rng.getrandbits(64)
         if (int(bits, 16) >> 52) & 0x7FF == 0x7FF:
             continue
-        b.raw(f"fl g15 {bits}", ("fl",))
+        b.raw(f"fl g15 {bits}", ("fl", "g15"))
     out.append(b)
     b = Batch("floatlaws-strtod")
     for t in corp.get("FLOAT_TEXT", []):
